@@ -8,7 +8,7 @@ props = [json.loads(l) for l in open(os.path.join(ROOT, "properties.jsonl"))]
 CHECKS = {
  "C01": ("exploration", "proptest-generated hostile byte streams x option sets through the real reader thread (builds with and without overflow checks) and the built CLI (dev + release), sentinel-frame oracle; shrunk replays",
          "generated-input search for panics, overflow, early stop and non-zero exit; bounded sense of termination",
-         "watchdog expiry = inconclusive; -u/-d drawn from small sets", "DESIGN.md §6 C01"),
+         "a run proven wedged (every thread blocked and idle for 30 s, or 600 s of CPU burnt) is a violation, a run that is merely slow is inconclusive; -u drawn from a small set, -d from {0,1,5,60,600,2^32,i64::MAX/1000+1,i64::MAX}", "DESIGN.md §6 C01"),
  "C02": ("exploration", "proptest-generated digit strings/decorations + deterministic digit-count sweep against a reference acceptance predicate; table-level and get_message-level decoration invariance",
          "generated lines decide the iff (count, DF/length, parity) and decoration invariance on the aircraft table",
          "hex digit = ASCII 0-9a-fA-F; reference CRC-24", "DESIGN.md §6 C02"),
@@ -55,12 +55,12 @@ CHECKS = {
          "reference count from the independent acceptance predicate; excluded frames must leave the table bit-identical",
          "counts of DFs outside the nine formats not asserted", "DESIGN.md §6 C16"),
  "C18": ("fault_enumeration", "enumerated (all sequences of length <= 2 quick / <= 3 thorough) and generated fault sequences against the built CLI with a harness-owned loopback peer (refuse, close, frames+close, partial line+RST, junk), followed by a healthy connection",
-         "fault sequences are enumerated up to the stated length; oracle = process alive, reconnects, table kept, lower bound on the retry pause",
+         "fault sequences are enumerated up to the stated length; oracle = process alive, reconnects, table kept, lower bound on the retry pause (upper bound after four refusals in a row)",
          "liveness only in the bounded sense (60 s deadline = inconclusive)", "DESIGN.md §6 C18"),
  "C19": ("exploration", "differential: same generated history under two option sets differing only in presentation options (-i -o -c -u -M -D -O; -l via CLI); per-prefix comparison of decode results with and without -U on histories of valid DF4/5/11/17 frames",
          "both sides are real runs; relation taken from the statement",
          "histories slower than 0.9 s discarded", "DESIGN.md §6 C19"),
- "C17": ("exploration", "exhaustive enumeration of all 2^24 addresses against an independent block table + proptest-generated addresses through the reader",
+ "C17": ("exploration", "exhaustive enumeration of all 2^24 addresses against an independent block table + proptest-generated addresses and short histories through the reader + the code as printed by Planes::print",
          "every address is run through the public constructor and compared with a reference allocation table; complete for the address dimension, sampled for the frame formats that carry the address through the reader",
          "trusts the reference table transcribed from Annex 10 (two disputed ranges accept either answer)", "DESIGN.md §6 C17"),
 }
